@@ -321,18 +321,18 @@ def r06_4(ctx, prog, crate):
         ctx.anchor("R06.4", "wait-loop load", 0, 1)
         return
     ld = ld[0]
-    # the switch on Gt(load, 0)
+    # the test of the loaded count against zero, in any spelling (`> 0`, `!= 0`, `== 0 { break }` ...): canonical atom Eq(0, load)
+    from lib.symexpr import Sym, bool_switch
+    SY = Sym(bt)
+    want = ("Eq", ("int", 0), ("site", ld.callee, ld.bb))
     sw = None
     for bi, t in bt.switches():
-        srcs = bt.prov.op_src(t["discr"])
-        if any(s.kind == "call" and s.b == ld.bb for s in srcs) and any(s.kind == "binop" and s.a in ("Gt", "Ne") for s in srcs) and \
-                any(s.kind == "const" and s.a.startswith("0_") for s in srcs):
-            sw = (bi, t)
-    if not ctx.check(sw is not None, "R06.4", ["caller", "wait-condition"], "no `load(ref_count) > 0` test", ld.line()):
+        bs = bool_switch(bt, SY, bi)
+        if bs is not None and bs[0] == want:
+            sw = (bi, bs)
+    if not ctx.check(sw is not None, "R06.4", ["caller", "wait-condition"], "no test of the loaded ref_count against zero", ld.line()):
         return
-    bi, t = sw
-    exit_t = [a[1] for a in t["arms"] if a[0] == "0"][0]
-    stay_t = t["otherwise"]
+    bi, (_atom, exit_t, stay_t) = sw
     ok = bt.pred[exit_t] == [bi] and all(bt.dominates(exit_t, r) for r in bt.returns)
     ctx.check(ok, "R06.4", ["caller", "return-only-through-zero-count"],
               "broadcast_task can return without having observed ref_count == 0", bt.where(exit_t))
